@@ -152,7 +152,7 @@ def parse_unit(path):
             cl, i = parse_clauses(i)
             u.loop_clauses.setdefault((q, int(k)), []).extend(cl)
         elif d == "@ghost":
-            m = re.match(r"(\S+)\s+(before|after|body-start)\s*(?:`(.*)`)?\s*$", rest)
+            m = re.match(r"(\S+)\s+(before|after|body-start|body-end)\s*(?:`(.*)`)?\s*$", rest)
             if not m:
                 raise Undecided("bad @ghost in %s:%d" % (path, i))
             txt = []
@@ -1079,6 +1079,9 @@ def self_emit_fn(em, res, u, rw, qual, sig, body, orig, rel, self_subst, mode, d
             continue
         if where == "body-start":
             inserts.append((1, ("raw", txt, glabel)))
+            continue
+        if where == "body-end":
+            inserts.append((len(new_body) - 1, ("raw", txt, glabel)))
             continue
         n = new_body.count(anchor)
         if n != 1:
